@@ -1,6 +1,8 @@
 #!/bin/bash
 # Offline build of the simulator workspace (also done by every ./check invocation).
 set -e
-cd "$(dirname "$0")/sim"
+here="$(cd "$(dirname "$0")" && pwd)"
+cd "$here/sim"
 export CARGO_NET_OFFLINE=true
 cargo build --release --offline
+RUSTFLAGS="--cfg servlin_verif" CARGO_TARGET_DIR="$here/target-hooks" cargo build --release --offline
